@@ -18,7 +18,7 @@ One action per critical section / blocking operation:
 |     | `runStopServer d` | `r.mutex.Lock(); stopServer(); r.mutex.Unlock()`; `d`: the drain ended in time / timed out |
 |     | `runFinish` | `Transition(Stopped)` or `setStateError`; deferred `runCancel()`, `done()` |
 | Reload | `rlEnter` | `r.mutex.Lock()`, `Transition(Reloading)`; on failure unlock and return (no `setStateError`) |
-|     | `rlConfig res same` | `reloadConfig()`: callback error / nil: `setStateError`, return; equal to the stored one (`same`): `Transition(Running)`, return; else `setConfig` |
+|     | `rlConfig res same`, `rlAfterCb` | `reloadConfig()`: the callback returns; then (a separate step: other threads run in between) callback error / nil: `setStateError`, return; equal to the stored one (`same`): `Transition(Running)`, return; else `setConfig` |
 |     | `rlStopOld d` | `stopServer()`; an error: `setStateError`, return |
 |     | `rlBootBegin ok` | `boot()` as above |
 |     | `rlProbeOk` / `rlProbeFail` | readiness; `Transition(Running)` resp. `stopServer`, `setStateError`; unlock |
@@ -58,8 +58,11 @@ inductive RunPc where
   | idle | entered | probing | booted | select | afterSelect | toStop | stopped (drainErr : Bool) | returned (r : RRet)
   deriving DecidableEq, Repr
 
+inductive Cb where | ok (cfg : Nat) | err | nil
+  deriving DecidableEq, Repr
+
 inductive RlPc where
-  | idle | entered | stopOld | toBoot | probing
+  | idle | entered | cbReturned (res : Cb) (same : Bool) | stopOld | toBoot | probing
   deriving DecidableEq, Repr
 
 inductive Owner where | run | reload
@@ -85,13 +88,11 @@ structure St where
   retAcked  : Bool := false
   deriving DecidableEq, Repr
 
-inductive Cb where | ok (cfg : Nat) | err | nil
-  deriving DecidableEq, Repr
 
 inductive Act where
   | runEnter | runBootBegin (res : Cb) (ok : Bool) | runProbeOk | runProbeFail (consume : Bool) | runToRunning
   | runSelCtx | runSelStop | runSelErr | runToStopping | runStopServer (inTime : Bool) | runFinish
-  | rlEnter | rlConfig (res : Cb) (same : Bool) | rlStopOld (inTime : Bool) | rlBootBegin (ok : Bool) | rlProbeOk | rlProbeFail (consume : Bool)
+  | rlEnter | rlConfig (res : Cb) (same : Bool) | rlAfterCb | rlStopOld (inTime : Bool) | rlBootBegin (ok : Bool) | rlProbeOk | rlProbeFail (consume : Bool)
   | instBind (i : Nat) | instBindFail (i : Nat)
   | stopCall | cancelCtx | stopDone | reloadCall | reloadAck (st : Fsm) | retAck (r : RRet) (st : Fsm) | observe (st : Fsm) | observeInst (i : Nat)
   deriving DecidableEq, Repr
@@ -172,13 +173,16 @@ def step (s : St) : Act → Option St
     | some f => some { s with fsm := f, rl := .entered, mu := some .reload, pendingRl := s.pendingRl - 1 }
     | none => some { s with reloads := s.reloads + 1, pendingRl := s.pendingRl - 1 }
   | .rlConfig res same =>
-    if s.rl != .entered then none else
-    match res with
-    | .ok c =>
+    -- the callback is seen (by the harness) while it runs; what `reloadConfig` does with its result comes afterwards
+    if s.rl != .entered then none else some { s with rl := .cbReturned res same }
+  | .rlAfterCb =>
+    match s.rl with
+    | .cbReturned (.ok c) same =>
       if s.cfg.isSome && same then
         some { s with fsm := (tr s .running).getD .error, rl := .idle, mu := none, reloads := s.reloads + 1 }
       else some { s with cfg := some c, rl := .stopOld }
-    | _ => some { s with fsm := .error, rl := .idle, mu := none, reloads := s.reloads + 1 }
+    | .cbReturned _ _ => some { s with fsm := .error, rl := .idle, mu := none, reloads := s.reloads + 1 }
+    | _ => none
   | .rlStopOld inTime =>
     if s.rl != .stopOld then none else
     if stopErr s inTime then some { stopServer s with fsm := .error, rl := .idle, mu := none, reloads := s.reloads + 1 }
